@@ -115,7 +115,7 @@ func (cl *Cluster) idleFetch(r *Req, req *sarama.FetchRequest, blocks []sarama.V
 		if rc {
 			upper = p.LastStableOffset()
 		}
-		if b.Offset != upper {
+		if b.Offset != upper && !(rc && b.Offset > upper && b.Offset <= p.HighWaterMark()) {
 			return false
 		}
 	}
